@@ -136,6 +136,12 @@ func (env *ExecEnv) expand(word ast.Word, mode ExpMode) (fields []*field, err er
 				}
 				fields[len(fields)-1].join(s, true)
 			case `"`:
+				if len(env.Args) == 1 && len(w.Value) == 1 {
+					if pe, ok := w.Value[0].(*ast.ParamExp); ok && pe.Name.Value == "@" && pe.Op == "" {
+						// "$@" without positional parameters generates zero fields
+						continue
+					}
+				}
 				word, err := env.expand(w.Value, mode&Arith|Quote)
 				if err != nil {
 					return nil, err
